@@ -74,6 +74,38 @@ def typed_stream(ck, q):
     ck.note('typed_stream_outcomes', hist)
 
 
+
+def viral_stream(ck, q):
+    """scripts over datasets with viral attributes and ORDER-FREE propagation rules (aggregate rules, and enumerated rules
+    whose two-value table is associative: Props/C28 `enum_group_perm_partial`): the result is determined by VTL, so permuting
+    the input rows must not change it.  (Rules that are not order-free are C28's subject and recorded there.)"""
+    from sem import gen_viral as GV
+    # analytic invocations without order by are order-dependent on the pinned tree for a reason that has nothing to do with viral
+    # attributes (known C06 finding: default window), so they are left to C06
+    g = GV.ViralGen(ck.rng, order_free_only=True, allow={'assign', 'filter', 'calc', 'rename', 'setop', 'keep', 'drop', 'dropv', 'sub', 'aggr', 'aggrc',
+                                                          'unary', 'scalar', 'binary', 'cmp', 'bincmp', 'join'})
+    cases = [g.case() for _ in range(40 if q else 800)]
+    seeds = [None, 1, 2] if q else [None, 1, 2, 3, 4]
+    outs = V.run_viral(cases, seeds)
+    hist = {}
+    for i, c in enumerate(cases):
+        base = outs[i][0]
+        kind = base[0] if base[0] != 'vtl' else 'vtl:' + str(base[1])
+        hist[kind] = hist.get(kind, 0) + 1
+        if any(o[0] == 'timeout' for o in outs[i]):
+            ck.count(None, nontrivial=False); continue
+        nontrivial = base[0] == 'ok' and any((x[0] == 'ds' and x[2]) for x in base[1].values())
+        ck.count(('viral', c['vtl'], GV.env_sx(c['env'])), nontrivial=nontrivial, n=len(seeds))
+        for sd, o in zip(seeds[1:], outs[i][1:]):
+            same, why = V.same_result(base, o)
+            if not same:
+                rep = GV.case_to_json(c); rep.update({'perm_seed': sd, 'why': why, 'base': str(base)[:1200], 'permuted': str(o)[:1200]})
+                ck.violation('permutation-changes-result:viral:%s' % (c.get('ops') or ['?'])[-1], rep,
+                             'permuting the input rows of a script with an order-free viral propagation rule changes the result: %s | %s' % (why[:160], c['vtl'][:160]))
+                break
+    ck.note('viral_stream_outcomes', hist)
+
+
 def corpus_stream(ck, q):
     """the upstream corpus (every run() call of the upstream tests, harvested not executed): each call is replayed as
     recorded and with the rows and columns of every CSV input shuffled; results compared as sets."""
@@ -162,6 +194,7 @@ def main(ck):
                              'permuting input rows/columns (%s form) changed the result of %s: %s' % (var.get('form'), c['vtl'][:120], why))
                 break
     typed_stream(ck, q)
+    viral_stream(ck, q)
     corpus_stream(ck, q)
     ck.note('outcomes', hist)
     ck.cov['rule'] = ('case = (script, data); each case is run once as given and %d times with permuted rows + shuffled columns (DataFrame and CSV); '
